@@ -47,6 +47,26 @@ clock_gettime(clockid_t id, struct timespec *tp)
 	return 0;
 }
 
+/* VERIF_SHORTWRITE=k:how  -- the k-th write() of more than one byte to a regular descriptor completes only partly
+ * (how: 1 = one byte, 2 = half, 3 = all but one byte), as POSIX allows; a sentinel syscall marks that it happened */
+#include <sys/syscall.h>
+ssize_t
+write(int fd, const void *b, size_t n)
+{
+	static int cnt, k = -1, how;
+	if (k < 0) {
+		const char *e = getenv("VERIF_SHORTWRITE");
+		k = 0;
+		if (e)
+			sscanf(e, "%d:%d", &k, &how);
+	}
+	if (k > 0 && fd > 2 && n > 1 && __atomic_add_fetch(&cnt, 1, __ATOMIC_SEQ_CST) == k) {
+		n = how == 1 ? 1 : (how == 2 ? n / 2 : n - 1);
+		syscall(SYS_write, -1, "VERIF-SHORT", 11);
+	}
+	return (ssize_t) syscall(SYS_write, fd, b, n);
+}
+
 /* readdir in a chosen order */
 struct dcache {
 	DIR *dir;
